@@ -1,12 +1,55 @@
 (* C11 — Board lookup and board listings equal a scan of the board table.
-   Only statements here; every proof is `exact <lemma of Proofs/C11.v or Base/OddSearch.v>`.
+   Only statements here; every proof is `exact <lemma of Proofs/C11*.v or Base/OddSearch.v>`.
    Vocabulary: a table is given in the order of its sorted index; [cmp_name names q i] / [cmp_class .. i] is the
    comparison the code makes between the key and entry i (types.Cstrcasecmp on BoardID_t / cmpBoardByClass);
-   [sorted_for_name names q] ([mono]) says the sign of that comparison never increases along the index, i.e. the
-   index is sorted for this key; [scan c n asc] is the linear scan (first entry not below / last entry not above
-   the key, 1-based, -1 = none); [core]/[search]/[find] (Base/OddSearch.v) are getBidBy*Core and FindBoardIdxBy*. *)
+   [less_name] / [less_class] are the two Less functions sort.Sort is called with; [sorted_by less l] says no adjacent
+   pair of l is out of order; [sorted_permutation less table l] = l is a permutation of table and sorted (what sort.Sort
+   is assumed to return; the check verifies it on every table); [sorted_for_name names q] ([mono]) says the sign of the
+   comparison with the key q never increases along the index; [scan c n asc] is the linear scan (first entry not below /
+   last entry not above the key, 1-based, -1 = none, see C11_scan_meaning); [core]/[search]/[find] (Base/OddSearch.v)
+   are getBidBy*Core and FindBoardIdxBy*; [bytes_ok] = every element is a byte; [distinct_names names] = two different
+   slots compare equal ignoring case only when both are vacated (empty name); [visible names i] = slot i is not vacated. *)
+From Coq Require Import Sorted.
 From Verif Require Import Base.Common Base.OddSearch Model.C11 Proofs.C11.
 
+(* ------------------------------------------------------------------------------------------------ the sort orders *)
+(* both Less functions (by name: Cstrcasecmp < 0 on the BoardID_t; by class: Cstrcmp on Title[:4], then the name) are
+   strict weak orders on byte strings: irreflexive, transitive, incomparability transitive. Hence any correct
+   comparison sort yields a sorted permutation. An entry of the by-class table is (Title[:5], name). *)
+Theorem C11_less_is_strict_weak_order :
+  ((forall a, less_name a a = false) /\
+   (forall a b c, bytes_ok a = true -> bytes_ok b = true -> bytes_ok c = true ->
+      less_name a b = true -> less_name b c = true -> less_name a c = true) /\
+   (forall a b c, bytes_ok a = true -> bytes_ok b = true -> bytes_ok c = true ->
+      less_name a b = false -> less_name b a = false -> less_name b c = false -> less_name c b = false ->
+      less_name a c = false /\ less_name c a = false)) /\
+  ((forall a, less_class a a = false) /\
+   (forall a b c : list Z * list Z,
+      bytes_ok (fst a) = true /\ bytes_ok (snd a) = true -> bytes_ok (fst b) = true /\ bytes_ok (snd b) = true ->
+      bytes_ok (fst c) = true /\ bytes_ok (snd c) = true ->
+      less_class a b = true -> less_class b c = true -> less_class a c = true) /\
+   (forall a b c : list Z * list Z,
+      bytes_ok (fst a) = true /\ bytes_ok (snd a) = true -> bytes_ok (fst b) = true /\ bytes_ok (snd b) = true ->
+      bytes_ok (fst c) = true /\ bytes_ok (snd c) = true ->
+      less_class a b = false -> less_class b a = false -> less_class b c = false -> less_class c b = false ->
+      less_class a c = false /\ less_class c a = false)).
+Proof. exact (conj less_name_swo less_class_swo). Qed.
+Print Assumptions C11_less_is_strict_weak_order.
+
+(* an index sorted with that Less is monotone for EVERY key the searches compare with it. By class this needs the
+   fifth title byte to be a blank (what NewBoard writes) or a NUL (a vacated slot): [title_ok t] is
+   nth 4 t 0 = 32 \/ nth 4 t 0 = 0; without it the statement is false (C11_find_by_class_refuted_nonblank_title_byte) *)
+Theorem C11_sorted_implies_monotone :
+  (forall names q, forallb bytes_ok names = true -> bytes_ok q = true ->
+     sorted_by less_name names = true -> sorted_for_name names q) /\
+  (forall titles names cls q, length titles = length names ->
+     Forall (fun t => nth 4 t 0 = 32 \/ nth 4 t 0 = 0) titles ->
+     forallb bytes_ok titles = true -> forallb bytes_ok names = true -> bytes_ok cls = true -> bytes_ok q = true ->
+     sorted_by less_class (combine titles names) = true -> sorted_for_class titles names cls q).
+Proof. exact (conj sorted_implies_monotone_name sorted_implies_monotone_class). Qed.
+Print Assumptions C11_sorted_implies_monotone.
+
+(* ------------------------------------------------------------------------------------------------ the search *)
 (* the odd binary search, for ANY comparison that is monotone along the array: it returns within its fuel, an
    exact answer is an entry equal to the key, and "not found" is given exactly when no entry equals the key *)
 Theorem C11_search_exact : forall (c : Z -> Z) n, mono c n -> 0 <= n ->
@@ -14,6 +57,18 @@ Theorem C11_search_exact : forall (c : Z -> Z) n, mono c n -> 0 <= n ->
     (found = true -> 0 <= idx < n /\ c idx = 0) /\ (found = false -> forall i, 0 <= i < n -> c i <> 0).
 Proof. exact search_exact. Qed.
 Print Assumptions C11_search_exact.
+
+(* what the linear scan returns, for any comparison: ascending the first entry not below the key, descending the
+   last entry not above it, -1 when there is none; it always returns *)
+Theorem C11_scan_meaning : forall (c : Z -> Z) n, 0 <= n ->
+  (exists r, scan c n true = Ok r /\
+     ((r = -1 /\ forall i, 0 <= i < n -> 0 < c i) \/
+      (1 <= r <= n /\ c (r - 1) <= 0 /\ forall i, 0 <= i < r - 1 -> 0 < c i))) /\
+  (exists r, scan c n false = Ok r /\
+     ((r = -1 /\ forall i, 0 <= i < n -> c i < 0) \/
+      (1 <= r <= n /\ 0 <= c (r - 1) /\ forall i, r - 1 < i < n -> c i < 0))).
+Proof. intros c n Hn. exact (conj (scan_asc_spec c n Hn) (scan_desc_spec c n Hn)). Qed.
+Print Assumptions C11_scan_meaning.
 
 (* GetBid: a name in any letter case yields the bid of a board whose name equals it ignoring case, or 0 iff none *)
 Theorem C11_getbid : forall names bids q, sorted_for_name names q ->
@@ -23,6 +78,18 @@ Theorem C11_getbid : forall names bids q, sorted_for_name names q ->
 Proof. exact getbid. Qed.
 Print Assumptions C11_getbid.
 
+(* ... on the board table itself: [table] lists the names in bid order, [bids] (BSorted[by name] + 1) is a permutation
+   of 1..n that puts them in sorted order. GetBid(q) is the bid of a board named q ignoring case, or 0 iff no board is *)
+Theorem C11_getbid_sorted : forall table bids q,
+  Permutation.Permutation bids (map (fun i => Z.of_nat i + 1) (seq 0 (length table))) ->
+  forallb bytes_ok table = true -> bytes_ok q = true ->
+  sorted_by less_name (map (fun b => nth (Z.to_nat (b - 1)) table []) bids) = true ->
+  exists b, get_bid (map (fun b => nth (Z.to_nat (b - 1)) table []) bids) bids q = Ok b /\
+    ((1 <= b <= lenZ table /\ cstrcasecmp (boardid q) (boardid (nth (Z.to_nat (b - 1)) table [])) = 0) \/
+     (b = 0 /\ forall j, 0 <= j < lenZ table -> cstrcasecmp (boardid q) (boardid (nth (Z.to_nat j) table [])) <> 0)).
+Proof. exact getbid_table. Qed.
+Print Assumptions C11_getbid_sorted.
+
 (* FindBoardIdxByName: an entry equal to the key if there is one, else exactly what the linear scan gives in the
    requested direction (-1 = none); in particular ascending below the first board is 1 (repaired, finding row 10) *)
 Theorem C11_find_by_name : forall names q asc, sorted_for_name names q ->
@@ -31,6 +98,14 @@ Theorem C11_find_by_name : forall names q asc, sorted_for_name names q ->
 Proof. exact find_by_name_spec. Qed.
 Print Assumptions C11_find_by_name.
 
+(* ... for every sorted permutation of a table of byte strings and every key *)
+Theorem C11_find_by_name_sorted : forall table names q asc,
+  sorted_permutation less_name table names -> forallb bytes_ok table = true -> bytes_ok q = true ->
+  exists r, find_by_name names q asc = Ok r /\
+    ((1 <= r <= lenZ names /\ cmp_name names q (r - 1) = 0) \/ scan (cmp_name names q) (lenZ names) asc = Ok r).
+Proof. exact find_by_name_sorted. Qed.
+Print Assumptions C11_find_by_name_sorted.
+
 (* FindBoardIdxByClass likewise, PROVIDED the by-class index is sorted for the comparison the search makes *)
 Theorem C11_find_by_class : forall titles names cls q asc, sorted_for_class titles names cls q ->
   exists r, find_by_class titles names cls q asc = Ok r /\
@@ -38,6 +113,18 @@ Theorem C11_find_by_class : forall titles names cls q asc, sorted_for_class titl
      scan (cmp_class titles names cls q) (lenZ names) asc = Ok r).
 Proof. exact find_by_class_spec. Qed.
 Print Assumptions C11_find_by_class.
+
+(* ... for every sorted permutation (titles, names) of a table of (Title[:5], name) entries whose fifth title byte is
+   a blank or a NUL, and every key (class, name) *)
+Theorem C11_find_by_class_sorted : forall table titles names cls q asc,
+  length titles = length names -> sorted_permutation less_class table (combine titles names) ->
+  Forall (fun e => bytes_ok (fst e) = true /\ bytes_ok (snd e) = true /\ (nth 4 (fst e) 0 = 32 \/ nth 4 (fst e) 0 = 0)) table ->
+  bytes_ok cls = true -> bytes_ok q = true ->
+  exists r, find_by_class titles names cls q asc = Ok r /\
+    ((1 <= r <= lenZ names /\ cmp_class titles names cls q (r - 1) = 0) \/
+     scan (cmp_class titles names cls q) (lenZ names) asc = Ok r).
+Proof. exact find_by_class_sorted. Qed.
+Print Assumptions C11_find_by_class_sorted.
 
 (* search_order_agrees, by name: the search compares exactly as the index was sorted (same function) *)
 Theorem C11_search_order_agrees_name : forall names q i, 0 <= i ->
@@ -55,13 +142,42 @@ Theorem C11_find_by_class_refuted_nonblank_title_byte :
 Proof. exact find_by_class_refuted_nonblank_title_byte. Qed.
 Print Assumptions C11_find_by_class_refuted_nonblank_title_byte.
 
-(* auto-completion is total: every prefix (empty, longer than a board name: repaired, finding row 20) gets an answer.
-   PARTIAL: the functional half ("the first / last board carrying the prefix") is proved false in two classes below
-   and otherwise only validated by the check (every pool prefix on every enumerated table). *)
-Theorem C11_autocomplete_total_partial : forall (names : list (list Z)) (kw : list Z) (asc : bool),
-  sorted_for_name names (if asc then kw else bump_last kw) -> exists r, autocomplete names kw asc = Ok r.
-Proof. exact autocomplete_total. Qed.
-Print Assumptions C11_autocomplete_total_partial.
+(* ------------------------------------------------------------------------------------------------ auto-completion *)
+(* total: every prefix (empty, longer than a board name: repaired, finding row 20) gets an answer on every sorted table *)
+Theorem C11_autocomplete_total : forall (names : list (list Z)) (kw : list Z) (asc : bool),
+  forallb bytes_ok names = true -> bytes_ok kw = true -> sorted_by less_name names = true ->
+  exists r, autocomplete names kw asc = Ok r.
+Proof. exact autocomplete_total_sorted. Qed.
+Print Assumptions C11_autocomplete_total.
+
+(* functional half. Board i carries the prefix when [cmp_prefix names kw i = 0] (the comparison the code makes: see
+   C11_autocomplete_carries_meaning). On a sorted table whose boards have names distinct up to case, for a prefix of
+   1..12 non-NUL bytes, the start index is the first (ascending) / last (descending) board carrying the prefix, and -1
+   exactly when no board carries it. EXCLUDED, descending only: a prefix whose last byte is '@' (64), 'Z' (90) or 0xFF
+   (255). The code searches for the prefix with its last byte incremented, which is the successor of the prefix in the
+   case-folded order only if tolower (b + 1) = tolower b + 1 without wrapping: '@' + 1 = 'A' folds to 'a' (skipping
+   '[' .. '`'), 'Z' + 1 = '[' sorts below 'z', 0xFF + 1 wraps to NUL and ends the key. Each exclusion is necessary:
+   C11_autocomplete_refuted_desc_at_sign, _desc_upper_Z, _desc_0xff; so is distinctness: _refuted_case_twins. *)
+Theorem C11_autocomplete : forall names kw asc,
+  forallb bytes_ok names = true -> sorted_by less_name names = true -> distinct_names names = true ->
+  (1 <= length kw <= 12)%nat -> Forall (fun b => 0 < b < 256) kw ->
+  (asc = false -> last kw 0 <> 64 /\ last kw 0 <> 90 /\ last kw 0 <> 255) ->
+  exists r, autocomplete names kw asc = Ok r /\
+    if asc
+    then (r = -1 /\ forall i, 0 <= i < lenZ names -> ~ cmp_prefix names kw i = 0) \/
+         (1 <= r <= lenZ names /\ cmp_prefix names kw (r - 1) = 0 /\ forall i, 0 <= i < r - 1 -> ~ cmp_prefix names kw i = 0)
+    else (r = -1 /\ forall i, 0 <= i < lenZ names -> ~ cmp_prefix names kw i = 0) \/
+         (1 <= r <= lenZ names /\ cmp_prefix names kw (r - 1) = 0 /\ forall i, r - 1 < i < lenZ names -> ~ cmp_prefix names kw i = 0).
+Proof. intros names kw asc Hb Hs Hd H1 H2 H3. exact (autocomplete_spec names kw asc Hb Hs Hd (conj H1 (conj H2 H3))). Qed.
+Print Assumptions C11_autocomplete.
+
+(* "carries the prefix" = the first len(kw) bytes of the board name (as a C string) equal the prefix up to case *)
+Theorem C11_autocomplete_carries_meaning : forall names kw i,
+  forallb bytes_ok names = true -> Forall (fun b => 0 < b < 256) kw ->
+  (cmp_prefix names kw i = 0 <->
+   map tolower (firstn (length kw) (cprefix (boardid (nth (Z.to_nat i) names [])))) = map tolower kw).
+Proof. exact carries_meaning. Qed.
+Print Assumptions C11_autocomplete_carries_meaning.
 
 (* descending with a prefix ending in 'Z': 'Z'+1 = '[' sorts below every letter. Known finding C11/autocomplete-desc-upper-Z *)
 Theorem C11_autocomplete_refuted_desc_upper_Z :
@@ -69,15 +185,72 @@ Theorem C11_autocomplete_refuted_desc_upper_Z :
 Proof. exact autocomplete_refuted_desc_upper_Z. Qed.
 Print Assumptions C11_autocomplete_refuted_desc_upper_Z.
 
+(* descending with a prefix ending in '@': sorted ["a@"; "a_a"; "a_b"; "aa"], prefix "a@": board 1 carries it, the answer
+   is "none" (the probe for "aa" lands three boards above). Known finding C11/autocomplete-desc-at-sign *)
+Theorem C11_autocomplete_refuted_desc_at_sign :
+  exists names kw, forallb bytes_ok names = true /\ sorted_by less_name names = true /\ distinct_names names = true /\
+    last kw 0 = 64 /\ cmp_prefix names kw 0 = 0 /\ autocomplete names kw false = Ok (-1).
+Proof. exact autocomplete_refuted_desc_at_sign. Qed.
+Print Assumptions C11_autocomplete_refuted_desc_at_sign.
+
+(* descending with a prefix ending in 0xFF: sorted ["a"; "ab"; "a\xff"], prefix "a\xff": board 3 carries it, the answer
+   is "none" (the key wraps to "a"). Known finding C11/autocomplete-desc-0xff *)
+Theorem C11_autocomplete_refuted_desc_0xff :
+  exists names kw, forallb bytes_ok names = true /\ sorted_by less_name names = true /\ distinct_names names = true /\
+    last kw 0 = 255 /\ cmp_prefix names kw 2 = 0 /\ autocomplete names kw false = Ok (-1).
+Proof. exact autocomplete_refuted_desc_0xff. Qed.
+Print Assumptions C11_autocomplete_refuted_desc_0xff.
+
 (* names equal up to case: the core stops on any twin. Known finding C11/autocomplete-case-twins *)
 Theorem C11_autocomplete_refuted_case_twins :
   exists names kw, sorted_by less_name names = true /\ cmp_prefix names kw 0 = 0 /\ autocomplete names kw true = Ok 2.
 Proof. exact autocomplete_refuted_case_twins. Qed.
 Print Assumptions C11_autocomplete_refuted_case_twins.
 
-(* page walk: with two boards whose names differ only in case the next-cursor (a name) resolves to the other twin and
-   the by-name listing with page size 1 never ends. Known finding C11/listing-case-twins. The positive statement
-   (names distinct up to case => pages concatenate to the visible boards in order) is validated, not proved. *)
+(* ------------------------------------------------------------------------------------------------ the listing walk *)
+(* paging the by-name listing through its next-cursor ("collect k+1 visible boards, the (k+1)-th is the next cursor,
+   look it up by name, continue there"): for every sorted table whose boards have names distinct up to case, every
+   page size k >= 1 and both directions, the walk terminates and its pages concatenate to the (1-based) positions of the
+   visible boards, each once, in order (ascending: increasing; descending: the reverse), in ceil(V/k) pages (1 if V = 0) *)
+Theorem C11_page_walk : forall names k asc,
+  forallb bytes_ok names = true -> sorted_by less_name names = true -> distinct_names names = true -> (1 <= k)%nat ->
+  page_walk names k asc =
+  let V := filter (visible names) (if asc then zseq 0 (length names) else rev (zseq 0 (length names))) in
+  Ok (pages_of (length V) k, map (fun i => i + 1) V).
+Proof. exact page_walk_spec. Qed.
+Print Assumptions C11_page_walk.
+
+(* ... and for ANY visibility predicate that never shows a vacated slot ([page_walk_g vis] is the same walk with the
+   predicate as a parameter; the model's [page_walk] is the instance vis = visible names: C11_page_walk_instance) *)
+Theorem C11_page_walk_any_visibility : forall names (vis : Z -> bool) k asc,
+  forallb bytes_ok names = true -> sorted_by less_name names = true -> distinct_names names = true ->
+  (forall i, vis i = true -> visible names i = true) -> (1 <= k)%nat ->
+  page_walk_g vis names k asc =
+  let V := filter vis (if asc then zseq 0 (length names) else rev (zseq 0 (length names))) in
+  Ok (pages_of (length V) k, map (fun i => i + 1) V).
+Proof. exact page_walk_any_visibility. Qed.
+Print Assumptions C11_page_walk_any_visibility.
+
+Theorem C11_page_walk_instance : forall names k asc, page_walk names k asc = page_walk_g (visible names) names k asc.
+Proof. exact page_walk_is_g. Qed.
+Print Assumptions C11_page_walk_instance.
+
+(* reading the result: [filter vis (zseq 0 m)] holds exactly the visible positions 0..m-1, each once, increasing; the
+   descending list is its reverse; [pages_of V k] is max 1 (ceil (V / k)) *)
+Theorem C11_page_walk_meaning : forall (vis : Z -> bool) m,
+  (forall x, In x (filter vis (zseq 0 m)) <-> 0 <= x < Z.of_nat m /\ vis x = true) /\
+  NoDup (filter vis (zseq 0 m)) /\ StronglySorted Z.lt (filter vis (zseq 0 m)) /\
+  filter vis (rev (zseq 0 m)) = rev (filter vis (zseq 0 m)) /\
+  (forall V k, (1 <= k)%nat -> pages_of V k = Z.max 1 ((Z.of_nat V + Z.of_nat k - 1) / Z.of_nat k)).
+Proof.
+  intros vis m.
+  exact (conj (visible_positions vis m) (conj (proj1 (visible_positions_once vis m)) (conj (visible_positions_sorted vis m 0)
+        (conj (filter_rev' vis (zseq 0 m)) pages_of_ceil)))).
+Qed.
+Print Assumptions C11_page_walk_meaning.
+
+(* with two boards whose names differ only in case the next-cursor (a name) resolves to the other twin and the by-name
+   listing with page size 1 never ends: distinctness is necessary. Known finding C11/listing-case-twins *)
 Theorem C11_page_walk_refuted_case_twins :
   exists names k asc, sorted_by less_name names = true /\ (0 < k)%nat /\ page_walk names k asc = Hang.
 Proof. exact page_walk_refuted_case_twins. Qed.
